@@ -200,6 +200,28 @@ fn process(sh: &Shared, cmds: &[Value], line_no: usize, line: &Value, pool: &mut
                 }
             }
         }
+        // sibling pairs: two different successors of this state (objects changed in place, moved, swapped)
+        if sh.pairs > 0 {
+            let mut succ: Vec<(usize, ConfigState)> = Vec::new();
+            for (i, cmd) in cmds.iter().enumerate() {
+                let mut b = st.clone();
+                if matches!(dispatch(&mut b, &conc.request(cmd)), Ok(true)) && cfg_of(&b) != before {
+                    succ.push((i, b));
+                }
+            }
+            if succ.len() >= 2 {
+                for _ in 0..(2 * sh.pairs + 2) {
+                    let (x, y) = (rng.next(succ.len()), rng.next(succ.len()));
+                    if x == y || cfg_of(&succ[x].1) == cfg_of(&succ[y].1) { continue; }
+                    sh.pairs_checked.fetch_add(1, Ordering::Relaxed);
+                    let (problems, _) = c06_pair(&succ[x].1, &succ[y].1);
+                    for (k, det) in problems {
+                        sh.report(format!("c06:{k}:siblings"), line_no, path,
+                            json!({"what": det, "state": want, "from": cmds[succ[x].0], "to": cmds[succ[y].0]}));
+                    }
+                }
+            }
+        }
         // far pairs: random earlier states of this worker (any family)
         for _ in 0..sh.pairs.min(pool.len()) {
             let o = &pool[rng.next(pool.len())];
